@@ -57,7 +57,9 @@ class Under(io.RawIOBase):
         self.ncalls += 1
         if self.err_at is not None and self.ncalls == self.err_at:
             self.raised = True
-            raise OSError("injected")
+            # any OSError is the client going away / the transport failing: the plain class and the subclasses a socket
+            # really raises (reset, timeout, EAGAIN on a non-blocking socket)
+            raise (OSError, ConnectionResetError, BlockingIOError, TimeoutError, BrokenPipeError)[(len(self.data) + self.err_at + self.k) % 5]("injected")
         if n is None or n < 0:
             n = len(self.data)
         n = min(n, self.k)
